@@ -140,3 +140,137 @@ def np_isclose(eng, st, args, kwargs, e):
     absd = z3.If(a - b >= 0, a - b, b - a)
     absb = z3.If(b >= 0, b, -b)
     return VNum(absd <= atol + rtol * absb)
+
+
+def astype_int(eng, st, args, kwargs, e):
+    """<scalar array>.astype(<integer dtype>): identity on integers, truncation toward zero on reals."""
+    v = args[0]
+    if isinstance(v, VNum) and v.is_int:
+        return v
+    if isinstance(v, VNum) and v.is_real:
+        return VNum(z3.If(v.z >= 0, z3.ToInt(v.z), -z3.ToInt(-v.z)))
+    raise Unsupported("astype")
+
+
+def first_arg(eng, st, args, kwargs, e):
+    """jnp.asarray(x[, dtype=d]) / np.asarray: the value itself (dtype conversions of values that already have that kind)."""
+    return args[0]
+
+
+def _has_quantifier(f):
+    todo, seen = [f], set()
+    while todo:
+        x = todo.pop()
+        if x.get_id() in seen:
+            continue
+        seen.add(x.get_id())
+        if z3.is_quantifier(x):
+            return True
+        todo.extend(x.children())
+    return False
+
+
+def lax_scan(eng, st, args, kwargs, e):
+    """jax.lax.scan(f, init, None, length=L) (documented semantics): carry_0 = init; (carry_{k+1}, y_k) = f(carry_k, None) for
+    k in [0, L); returns (carry_L, stack(y_0..y_{L-1})).  Verified like a loop: the contract's `scans[<closure name>]` gives an
+    inductive invariant over (counter, carry `c`) and `out` clauses over (counter, `ys[counter]`); the closure BODY is executed
+    symbolically for one arbitrary iteration (it is real source text of the function under contract).
+    Assumes f is traceable-pure (no side effects on enclosing state): checked syntactically (no attribute/subscript stores,
+    no nonlocal/global)."""
+    import z3 as _z3
+    fn, init = args[0], args[1]
+    node = getattr(fn, "node", None)
+    if node is None:
+        raise Unsupported("lax.scan over a function that is not a local closure")
+    spec = eng.c.get("scans", {}).get(node.name)
+    if spec is None:
+        raise Unsupported(f"lax.scan over {node.name}: no invariant in the contract")
+    for sub in ast.walk(node):
+        if isinstance(sub, (ast.Nonlocal, ast.Global)):
+            raise Unsupported("closure with nonlocal/global")
+        if isinstance(sub, (ast.Assign, ast.AugAssign, ast.AnnAssign)):
+            tg = sub.targets if isinstance(sub, ast.Assign) else [sub.target]
+            for t in tg:
+                for tt in ast.walk(t):
+                    if isinstance(tt, (ast.Attribute, ast.Subscript)):
+                        raise Unsupported("closure storing into an object")
+    L = eng.num(kwargs["length"]) if "length" in kwargs else None
+    if L is None or (len(args) > 2 and not isinstance(args[2], VNone)):
+        raise Unsupported("lax.scan with xs")
+    cname = spec.get("counter", "j")
+    carry_name = spec.get("carry", "c")
+    tag = f"scan:{node.name}"
+    old = getattr(st, "_old", None)
+    eng.oblige(st, f"{tag}.length-nonneg@L{eng.cur_line}", "pre@call", L >= 0)
+    # init
+    for j, inv in enumerate(spec.get("invariant", [])):
+        g = eng.eval_clause(inv, st, {cname: VNum(_z3.IntVal(0)), carry_name: init}, old=old)
+        eng.oblige(st, f"{tag}.init#{j}", "loop.init", g)
+    # one arbitrary iteration
+    body = st.fork()
+    body._old = old
+    k = fresh(cname, INT)
+    body.assume(_z3.And(0 <= k, k < L))
+    ck = eng.havoc_value(init, f"{node.name}.carry", body)
+    envk = {cname: VNum(k), carry_name: ck}
+    for inv in spec.get("invariant", []):
+        body.assume(eng.eval_clause(inv, body, envk, old=old))
+    body.env[cname] = VNum(k)            # visible to contracts of scans nested in the body
+    for j, text in enumerate(spec.get("lemmas", [])):
+        g = eng.eval_clause(text, body, envk, old=old)
+        from .engine import Obligation
+        eng.obligations.append(Obligation(f"{eng.prefix}/{tag}.lemma#{j}", "lemma", [], g, eng.cur_line, body.trace))
+        body.assume(g)
+    # hypotheses for the axiom instances: the axioms and the quantifier-free facts of this path (ranges of the counters)
+    rng = [h for h in body.pc if not _has_quantifier(h)]
+    for j, text in enumerate(spec.get("axiom_instances", [])):
+        g = eng.eval_clause(text, body, envk, old=old)
+        from .engine import Obligation
+        eng.obligations.append(Obligation(f"{eng.prefix}/{tag}.axiom-instance#{j}", "lemma", list(eng.axioms) + rng, g, eng.cur_line,
+                                          body.trace))
+        body.assume(g)
+    eng.canaries.append((f"{tag}.head", eng.axioms + list(body.pc)))
+    params = [a.arg for a in node.args.args]
+    if len(params) != 2:
+        raise Unsupported("scan body must take (carry, x)")
+    body.env[params[0]] = ck
+    body.env[params[1]] = VNone()
+    body.trace.append(f"L{node.lineno}:{tag}.body")
+    ek = spec.get("out_kind", "row")
+    ys = VSeq(fresh(f"{node.name}.ys", _z3.ArraySort(INT, sort_of_kind(ek))), L, ek)
+    line = eng.cur_line
+    n_exits = 0
+    for s2, sig in eng.exec_block(node.body, body):
+        if not (isinstance(sig, tuple) and sig and sig[0] == "return"):
+            raise Unsupported(f"scan body exit {sig}")
+        rv = sig[1]
+        if not (isinstance(rv, VTuple) and len(rv.items) == 2):
+            raise Unsupported("scan body must return (carry, y)")
+        n_exits += 1
+        eng.cur_line = line
+        c1, out = rv.items
+        for j, inv in enumerate(spec.get("invariant", [])):
+            g = eng.eval_clause(inv, s2, {cname: VNum(k + 1), carry_name: c1}, old=old)
+            eng.oblige(s2, f"{tag}.preserve#{j}", "loop.preserve", g)
+        if spec.get("out"):
+            if isinstance(out, VNone):
+                raise Unsupported("scan body emits None but the contract has out clauses")
+            s2.assume(_z3.Select(ys.arr, k) == eng.coerce(out, ek))
+            for j, oc in enumerate(spec["out"]):
+                g = eng.eval_clause(oc, s2, {cname: VNum(k), "ys": ys}, old=old)
+                eng.oblige(s2, f"{tag}.out#{j}", "loop.preserve", g)
+    if n_exits == 0:
+        raise Unsupported("scan body has no normal exit")
+    # after the scan
+    cL = eng.havoc_value(init, f"{node.name}.final", st)
+    for inv in spec.get("invariant", []):
+        st.assume(eng.eval_clause(inv, st, {cname: VNum(L), carry_name: cL}, old=old))
+    if spec.get("out"):
+        for oc in spec["out"]:
+            q = eng.eval_clause(f"forall(0, __L, lambda {cname}: {oc})", st, {"__L": VNum(L), "ys": ys}, old=old)
+            st.assume(q)
+        res_ys = ys
+    else:
+        res_ys = VNone()
+    st.trace.append(f"L{line}:{tag}.exit")
+    return VTuple([cL, res_ys])
